@@ -13,11 +13,14 @@ Case payloads (space separated fields):
   `continue_releases` the timing of a Continue is irrelevant, by `observer_only` so is the program.
 * `K <n> <bpops> <trace> <prog-hex>` — `n` threads, each suspension is answered by `StopThreads`.
   Result `released=<n> end=kill|fin`.
+* `Z <n> <bpops> <prog-hex>` — `n` threads run while `StopThreads` is called over and over: every thread ends
+  (`stop_releases_all` for the suspended ones, the others finish). Result `ended=<n>`.
 * `L <mode> <bos><boe> <bpops> <script> <trace> <lib-hex> <main-hex>` — library and main program loaded in
   steps with the debugger attached at the point `<mode>` says; `<trace>` = the visits of the phases in
   which the debugger is attached. Same result format and the SAME model function as `D`.
-* `S …` — sink programs on several workers: the model's answer is the constant the property
-  demands (`same=1 ok=1`); the recorded per-thread traces are validated in mode `vt`.
+* `S <workers> <events> <bpops> <script> <body-trace> <prog-hex>` — a sink program on pool workers, `<events>`
+  events; result `same=1 susp=<total number of suspensions | any>`; the recorded per-thread traces (with
+  the `f` = RecordThreadFinished events) are validated in mode `vt`.
 
 Syntax: `bpops` = `s<line>`/`d<line>`/`r<line>`/`b0`/`b1` joined by `,`; `script` = acts joined by `,`,
 an act = ops joined by `+`, then `R|I|O|U|K` (resume, stepin, stepover, stepout, StopThreads);
@@ -105,10 +108,14 @@ def caseD (f : List String) : String :=
 def caseK (f : List String) : String :=
   match f with
   | [n, bpops, trace, _prog] =>
-    match natOf n, setup "00" bpops, (list trace ",").mapM parseEv with
+    -- `<n>e`: breakOnError is on (a killed thread may suspend again at an error return; the controller
+    -- answers later suspensions with resume)
+    let boe := n.endsWith "e"
+    let n := if boe then (n.dropEnd 1).toString else n
+    match natOf n, setup (if boe then "01" else "00") bpops, (list trace ",").mapM parseEv with
     | some n, some d, some t =>
       let kill : Act := ⟨[], none⟩
-      let r := runTrace (Run.init d (List.replicate (t.length + 1) kill)) t
+      let r := runTrace (Run.init d [kill]) t
       if r.susp.isEmpty then "released=0 end=fin"
       else s!"released={n} end=" ++ (if r.killed then "kill" else "fin") ++ "\tnt=1"
     | _, _, _ => "bad-payload"
@@ -118,11 +125,24 @@ def runCase (payload : String) : String :=
   match payload.splitOn " " with
   | "D" :: rest => caseD rest
   | "K" :: rest => caseK rest
+  | ["Z", n, _bpops, _prog] => s!"ended={n}\tnt=1"
   | "L" :: _mode :: flags :: bpops :: script :: trace :: _lib :: [_main] =>
     -- life-cycle cases: the model is the same function of (visit trace while attached, break
     -- points, script): nothing about parse time or the attach point enters it
     caseD ["1", flags, bpops, script, "poll", "0", trace, "-"]
-  | "S" :: _ => "same=1 ok=1\tnt=1"
+  | ["S", _workers, events, bpops, script, body, _prog] =>
+    -- sink program: `events` executions of the sink body (visit trace of ONE execution: `body`) on pool
+    -- workers. With the all-resume script (`-`) every execution starts without interrogation state
+    -- (`threadFinished` removes a resumed state), so the total number of suspensions is
+    -- events × (suspensions of one execution), whatever worker runs which event. With stepping
+    -- scripts the per-thread traces are validated in mode `vt` only.
+    match natOf events, setup "00" bpops, (list body ",").mapM parseEv with
+    | some n, some d, some t =>
+      if script = "-" then
+        let k := (runTrace (Run.init d []) t).susp.length
+        s!"same=1 susp={n * k}" ++ (if k > 0 then "\tnt=1" else "")
+      else "same=1 susp=any\tnt=1"
+    | _, _, _ => "bad-payload"
   | _ => "bad-payload"
 
 /-! ### mode `hs`: replay of recorded handshake traces -/
@@ -177,7 +197,7 @@ def vtCase (payload : String) : String :=
     match setup flags bpops, (list script ",").mapM parseAct, evToks.mapM parseEv with
     | some d, some sc, some t =>
       let r := runTrace (Run.init d sc) t
-      if r.susp.map (·.line) = marks then "ok" else "differs model=" ++ showLines r.susp
+      if r.susp.map (fun l => l.src * 1000 + l.line) = marks then "ok" else "differs model=" ++ showLines r.susp
     | _, _, _ => "bad-payload"
   | _ => "bad-payload"
 
